@@ -168,3 +168,32 @@ func init() {
 		NotCovered: "every numerical clause: the value of an area, its agreement with a triangulation, additivity with the inverse, accuracy for slivers.",
 	}
 }
+
+func init() {
+	addRules := func(prop string, rules ...string) {
+		p := Properties[prop]
+		have := map[string]bool{}
+		for _, r := range p.Rules {
+			have[r] = true
+		}
+		for _, r := range rules {
+			if !have[r] {
+				p.Rules = append(p.Rules, r)
+			}
+		}
+		Properties[prop] = p
+	}
+	addRules("C02", "R-CONSTREL")
+	addRules("C03", "R-VERTEXSYM", "R-CONSTREL")
+	addRules("C04", "R-RESET", "R-FLAGS")
+	addRules("C05", "R-PADDING")
+	addRules("C06", "R-CLIPENDS")
+	addRules("C07", "R-ROLES")
+	addRules("C08", "R-CONSTREL")
+	addRules("C09", "R-FLAGS", "R-INITORDER", "R-PAIR")
+	addRules("C10", "R-PADDING", "R-CONSTREL")
+	addRules("C13", "R-NOALIAS")
+	addRules("C14", "R-IDLE", "R-NOALIAS")
+	addRules("C18", "R-ROLES")
+	addRules("C19", "R-ROLES")
+}
